@@ -30,6 +30,8 @@ pub enum PolKind {
     NoFilter,
     FirstByte,
     RejectAll,
+    RejectAllPrefix,
+    RejectAllExt,
 }
 impl PolKind {
     pub fn name(&self) -> String {
@@ -38,6 +40,8 @@ impl PolKind {
             PolKind::NoFilter => "none".into(),
             PolKind::FirstByte => "firstbyte".into(),
             PolKind::RejectAll => "rejectall".into(),
+            PolKind::RejectAllPrefix => "rejectallprefix".into(),
+            PolKind::RejectAllExt => "rejectallext".into(),
         }
     }
     pub fn boxed(&self) -> BoxedFilterPolicy {
@@ -46,6 +50,8 @@ impl PolKind {
             PolKind::NoFilter => Arc::new(Box::new(NoFilterPolicy::new())),
             PolKind::FirstByte => Arc::new(Box::new(FirstBytePolicy)),
             PolKind::RejectAll => Arc::new(Box::new(RejectAllPolicy)),
+            PolKind::RejectAllPrefix => Arc::new(Box::new(RejectAllPrefixPolicy)),
+            PolKind::RejectAllExt => Arc::new(Box::new(RejectAllExtPolicy)),
         }
     }
     /// the on-disk policy name
@@ -55,6 +61,8 @@ impl PolKind {
             PolKind::NoFilter => "_",
             PolKind::FirstByte => "verif.FirstByte",
             PolKind::RejectAll => "verif.RejectAll",
+            PolKind::RejectAllPrefix => "leveldb.BuiltinBloomFilter",
+            PolKind::RejectAllExt => "leveldb.BuiltinBloomFilter2x",
         }
     }
 }
